@@ -334,18 +334,85 @@ Proof.
 Qed.
 
 (** * the one-parent maps and the two-parent map of weighted parents *)
+(** the two sides of a selection are of different kinds (possible since a side without weight counts as fully weighted) *)
+Definition DiffKinds (mk : nmask) (old cur r : nval) : Prop :=
+  (exists ov ow cv tv tw, old = NW ov (Some ow) /\ cur = NW cv None /\ twhere mk ov cv = Some tv /\
+                          twhere mk ow (ones_like ow) = Some tw /\ r = NW tv (Some tw)) \/
+  (exists ov cv cw tv tw, old = NW ov None /\ cur = NW cv (Some cw) /\ twhere mk ov cv = Some tv /\
+                          twhere mk (ones_like cw) cw = Some tw /\ r = NW tv (Some tw)) \/
+  (exists o v w, old = NP o /\ cur = NW v w) \/ (exists v w c, old = NW v w /\ cur = NP c).
+
 Lemma nselect_inv mk old cur r : nselect mk old cur = Some r ->
   (exists o c t, old = NP o /\ cur = NP c /\ twhere mk o c = Some t /\ r = NP t) \/
   (exists ov ow cv cw tv tw, old = NW ov (Some ow) /\ cur = NW cv (Some cw) /\
                              twhere mk ov cv = Some tv /\ twhere mk ow cw = Some tw /\ r = NW tv (Some tw)) \/
-  (exists ov cv tv, old = NW ov None /\ cur = NW cv None /\ twhere mk ov cv = Some tv /\ r = NW tv None).
+  (exists ov cv tv, old = NW ov None /\ cur = NW cv None /\ twhere mk ov cv = Some tv /\ r = NW tv None) \/
+  DiffKinds mk old cur r.
 Proof.
-  unfold nselect, nselect_with.
-  destruct old as [o|ov [ow|]|], cur as [c|cv [cw|]|]; cbn -[twhere]; try discriminate.
+  unfold nselect, nselect_with, DiffKinds.
+  destruct old as [o|ov [ow|]|], cur as [c|cv [cw|]|]; cbn -[twhere ones_like]; try discriminate.
   - destruct (twhere mk o c) as [t|] eqn:E; [|discriminate]. intros H. injection H as <-. left. exists o, c, t. auto.
+  - intros _. right. right. right. right. right. left. eauto.
+  - intros _. right. right. right. right. right. left. eauto.
+  - intros _. right. right. right. right. right. right. eauto.
   - destruct (twhere mk ov cv) as [tv|] eqn:E; [|discriminate]. destruct (twhere mk ow cw) as [tw|] eqn:E'; [|discriminate].
     intros H. injection H as <-. right. left. exists ov, ow, cv, cw, tv, tw. auto.
-  - destruct (twhere mk ov cv) as [tv|] eqn:E; [|discriminate]. intros H. injection H as <-. right. right. exists ov, cv, tv. auto.
+  - destruct (twhere mk ov cv) as [tv|] eqn:E; [|discriminate]. destruct (twhere mk ow (ones_like ow)) as [tw|] eqn:E'; [|discriminate].
+    intros H. injection H as <-. right. right. right. left. exists ov, ow, cv, tv, tw. auto.
+  - intros _. right. right. right. right. right. right. eauto.
+  - destruct (twhere mk ov cv) as [tv|] eqn:E; [|discriminate]. destruct (twhere mk (ones_like cw) cw) as [tw|] eqn:E'; [|discriminate].
+    intros H. injection H as <-. right. right. right. right. left. exists ov, cv, cw, tv, tw. auto.
+  - destruct (twhere mk ov cv) as [tv|] eqn:E; [|discriminate]. intros H. injection H as <-. right. right. left. exists ov, cv, tv. auto.
+Qed.
+
+(** the kinds-differ case is impossible when the kinds of the two sides are known to agree, or useless when a node function refuses one side *)
+Ltac split_diff HD :=
+  destruct HD as [[?ov [?ow [?cv [?tv [?tw [?E1 [?E2 [?Hv [?Hw ?Er]]]]]]]]]|[[?ov [?cv [?cw [?tv [?tw [?E1 [?E2 [?Hv [?Hw ?Er]]]]]]]]]|
+                  [[?o [?v [?w [?E1 ?E2]]]]|[?v [?w [?c [?E1 ?E2]]]]]]].
+
+Lemma nselect_SN mk ov ow cv r : nselect mk (NW ov (Some ow)) (NW cv None) = Some r ->
+  exists tv tw, twhere mk ov cv = Some tv /\ twhere mk ow (ones_like ow) = Some tw /\ r = NW tv (Some tw).
+Proof.
+  unfold nselect, nselect_with. cbn -[twhere ones_like].
+  destruct (twhere mk ov cv) as [tv|]; [|discriminate]. destruct (twhere mk ow (ones_like ow)) as [tw|]; [|discriminate].
+  intros H. injection H as <-. eauto.
+Qed.
+
+Lemma nselect_NS mk ov cv cw r : nselect mk (NW ov None) (NW cv (Some cw)) = Some r ->
+  exists tv tw, twhere mk ov cv = Some tv /\ twhere mk (ones_like cw) cw = Some tw /\ r = NW tv (Some tw).
+Proof.
+  unfold nselect, nselect_with. cbn -[twhere ones_like].
+  destruct (twhere mk ov cv) as [tv|]; [|discriminate]. destruct (twhere mk (ones_like cw) cw) as [tw|]; [|discriminate].
+  intros H. injection H as <-. eauto.
+Qed.
+
+(** an entry with weight 1 counts fully: [weighted_value] of a value against all-ones weights is the value *)
+Lemma wvA_one v : wvA v (AFin 1%Z) = v.
+Proof. destruct v as [z| | | |]; cbn; try reflexivity. now destruct z. Qed.
+
+Lemma map2_id_l {A B} (f : A -> B -> A) : forall la lb, length la = length lb ->
+  (forall a b, In a la -> In b lb -> f a b = a) -> map2 f la lb = la.
+Proof.
+  induction la as [|a la IH]; intros [|b lb] L H; cbn in *; try discriminate; [reflexivity|].
+  f_equal; [apply H; auto | apply IH; [lia | intros; apply H; auto]].
+Qed.
+
+Lemma shape_ones w : shape (ones_like w) = shape w.
+Proof. apply shape_tmap. Qed.
+
+Lemma wv_ones : forall v w s, shape v = Some s -> shape w = Some s -> tmap2 wvA v (ones_like w) = v.
+Proof.
+  induction v as [a|la IH] using tens_ind'; intros w s Ev Ew.
+  - cbn in Ev. injection Ev as <-. destruct (shape_nil_T0 _ Ew) as [b ->]. unfold ones_like. cbn [tmap tmap2]. now rewrite wvA_one.
+  - destruct w as [b|lw]; [cbn in Ew; injection Ew as <-; destruct (shape_TL_inv _ _ Ev) as [[_ E]|[_ [s [E _]]]]; discriminate|].
+    unfold ones_like. cbn [tmap]. rewrite tmap2_TL. f_equal.
+    destruct (shape_TL_inv _ _ Ev) as [[-> ->]|[Hla [s' [-> Fa]]]]; [reflexivity|].
+    pose proof (shape_TL_len _ _ _ Ew) as Lw.
+    assert (Hlw : lw <> []) by (destruct lw; [destruct la; [congruence|discriminate]|discriminate]).
+    pose proof (shape_TL_rows _ _ _ Ew Hlw) as Fw.
+    apply map2_id_l; [rewrite map_length; lia|].
+    intros a b Ha Hb. apply in_map_iff in Hb. destruct Hb as [b' [<- Hb']].
+    rewrite Forall_forall in IH, Fa, Fw. apply (IH a Ha b' s'); auto.
 Qed.
 
 Lemma nselect_NP mk o c s : shape o = Some s -> shape c = Some s -> fits (mdepth (fst mk) s) (snd mk) s = true ->
@@ -377,7 +444,7 @@ Lemma wparent_norm mk s ov ow cv cw n :
   n = NW (nsel (mdepth (fst mk) s) (snd mk) ov cv) (Some (nsel (mdepth (fst mk) s) (snd mk) ow cw)).
 Proof.
   intros E1 E2 E3 E4 Hf [H|[H ->]].
-  - destruct (nselect_inv _ _ _ _ H) as [[? [? [? [E _]]]]|[[ov' [ow' [cv' [cw' [tv [tw [A1 [A2 [Hv [Hw ->]]]]]]]]]]|[? [? [? [E _]]]]]]; try discriminate.
+  - destruct (nselect_inv _ _ _ _ H) as [[? [? [? [E _]]]]|[[ov' [ow' [cv' [cw' [tv [tw [A1 [A2 [Hv [Hw ->]]]]]]]]]]|[[? [? [? [E _]]]]|HD]]]; try discriminate; try (split_diff HD; discriminate).
     injection A1 as <- <-. injection A2 as <- <-.
     rewrite (twhere_intro mk _ _ s) in Hv by assumption. rewrite (twhere_intro mk _ _ s) in Hw by assumption.
     injection Hv as <-. injection Hw as <-. reflexivity.
@@ -400,7 +467,7 @@ Proof.
   destruct (oshape_eqb_true _ _ Co1) as [s [A1 A2]]. destruct (oshape_eqb_true _ _ Co2) as [s' [A3 A4]]. destruct (oshape_eqb_true _ _ Co3) as [s'' [A5 A6]].
   destruct (oshape_eqb_true _ _ Ck1) as [t [B1 B2]]. destruct (oshape_eqb_true _ _ Ck2) as [t' [B3 B4]]. destruct (oshape_eqb_true _ _ Ck3) as [t'' [B5 B6]].
   shapes.
-  destruct (nselect_inv _ _ _ _ Hx) as [[? [? [? [E _]]]]|[[ov' [ow' [cv' [cw' [tv [tw [E1 [E2 [Hv [Hw ->]]]]]]]]]]|[? [? [? [E _]]]]]]; try discriminate.
+  destruct (nselect_inv _ _ _ _ Hx) as [[? [? [? [E _]]]]|[[ov' [ow' [cv' [cw' [tv [tw [E1 [E2 [Hv [Hw ->]]]]]]]]]]|[[? [? [? [E _]]]]|HD]]]; try discriminate; try (split_diff HD; discriminate).
   injection E1 as <- <-. injection E2 as <- <-.
   destruct (twhere_inv _ _ _ _ Hw) as [z [Z1 [Z2 [Hf ->]]]].
   match type of A1 with _ = Some ?a => rewrite (shape_tmap2_same amul _ _ a) in Z1 by assumption end.
@@ -426,21 +493,21 @@ Proof.
   - (* log2 *)
     destruct (d_parents (nth k l dspec0)) as [|q [|q' ps]] eqn:Eps; try discriminate. destruct HS as [p [[<-|[]] Sp]].
     inversion Hmix as [|? ? o os c cs' x0 xs Sq Hq Hrest|? ? os c cs' xs Sq Hrest]; subst; [|congruence]. inversion Hrest; subst. clear Hmix Hrest.
-    cbn in Hq. destruct (nselect_inv _ _ _ _ Hq) as [[to [tc [t [-> [-> [Ht ->]]]]]]|[[ov [ow [cv [cw [tv [tw [-> [-> _]]]]]]]]|[ov [cv [tv [-> [-> _]]]]]]];
-      try (cbn in Hx; discriminate).
+    cbn in Hq. destruct (nselect_inv _ _ _ _ Hq) as [[to [tc [t [-> [-> [Ht ->]]]]]]|[[ov [ow [cv [cw [tv [tw [-> [-> _]]]]]]]]|[[ov [cv [tv [-> [-> _]]]]]|HD]]];
+      try (cbn in Hx; discriminate); try (split_diff HD; subst; cbn in Hx; first [discriminate | rewrite nselect_bad_r in Hx; discriminate | rewrite nselect_bad_l in Hx; discriminate]).
     destruct (twhere_inv _ _ _ _ Ht) as [s [Eo [Ec [Hf ->]]]]. cbn [eval_dfun] in *.
     rewrite (nselect_NP mk _ _ s) in Hx by (rewrite ?shape_tmap; assumption). injection Hx as <-. now rewrite tmap_nsel.
   - (* DThr: the weight is computed from the parent *)
     destruct (d_parents (nth k l dspec0)) as [|q [|q' ps]] eqn:Eps; try discriminate. destruct HS as [p [[<-|[]] Sp]].
     inversion Hmix as [|? ? o os c cs' x0 xs Sq Hq Hrest|? ? os c cs' xs Sq Hrest]; subst; [|congruence]. inversion Hrest; subst. clear Hmix Hrest.
-    cbn in Hq. destruct (nselect_inv _ _ _ _ Hq) as [[to [tc [t [-> [-> [Ht ->]]]]]]|[[ov [ow [cv [cw [tv [tw [-> [-> _]]]]]]]]|[ov [cv [tv [-> [-> _]]]]]]];
-      try (cbn in Hx; discriminate).
+    cbn in Hq. destruct (nselect_inv _ _ _ _ Hq) as [[to [tc [t [-> [-> [Ht ->]]]]]]|[[ov [ow [cv [cw [tv [tw [-> [-> _]]]]]]]]|[[ov [cv [tv [-> [-> _]]]]]|HD]]];
+      try (cbn in Hx; discriminate); try (split_diff HD; subst; cbn in Hx; first [discriminate | rewrite nselect_bad_r in Hx; discriminate | rewrite nselect_bad_l in Hx; discriminate]).
     destruct (twhere_inv _ _ _ _ Ht) as [s [Eo [Ec [Hf ->]]]].
     destruct s as [|n s]; [now rewrite fits_nil in Hf|].
     destruct (shape_T0_or_TL to _ Eo ltac:(discriminate)) as [lo ->]. destruct (shape_T0_or_TL tc _ Ec ltac:(discriminate)) as [lc ->].
     assert (EN : exists ln, nsel (mdepth (fst mk) (n :: s)) (snd mk) (TL lo) (TL lc) = TL ln) by (destruct (mdepth (fst mk) (n :: s)); cbn; eauto).
     destruct EN as [ln EN]. rewrite EN. cbn [eval_dfun] in *. rewrite <- EN. unfold affT in *.
-    destruct (nselect_inv _ _ _ _ Hx) as [[? [? [? [E _]]]]|[[ov [ow [cv [cw [tv [tw [E1 [E2 [Hv [Hw ->]]]]]]]]]]|[? [? [? [E _]]]]]]; try discriminate.
+    destruct (nselect_inv _ _ _ _ Hx) as [[? [? [? [E _]]]]|[[ov [ow [cv [cw [tv [tw [E1 [E2 [Hv [Hw ->]]]]]]]]]]|[[? [? [? [E _]]]]|HD]]]; try discriminate; try (split_diff HD; discriminate).
     injection E1 as <- <-. injection E2 as <- <-.
     change (TL (map (tmap (aff c0 cc)) lo)) with (tmap (aff c0 cc) (TL lo)) in Hv.
     change (TL (map (tmap (aff c0 cc)) lc)) with (tmap (aff c0 cc) (TL lc)) in Hv.
@@ -452,21 +519,31 @@ Proof.
   - (* DMap *)
     destruct (d_parents (nth k l dspec0)) as [|q [|q' ps]] eqn:Eps; try discriminate. destruct HS as [p [[<-|[]] Sp]].
     inversion Hmix as [|? ? o os c cs' x0 xs Sq Hq Hrest|? ? os c cs' xs Sq Hrest]; subst; [|congruence]. inversion Hrest; subst. clear Hmix Hrest.
-    cbn in Hq. destruct (nselect_inv _ _ _ _ Hq) as [[to [tc [t [-> [-> [Ht ->]]]]]]|[[ov [ow [cv [cw [tv [tw [-> [-> [Hv [Hw ->]]]]]]]]]]|[ov [cv [tv [-> [-> [Hv ->]]]]]]]];
-      try (cbn in Hx; discriminate); cbn [eval_dfun] in *; unfold affT in *.
+    cbn in Hq. destruct (nselect_inv _ _ _ _ Hq) as [[to [tc [t [-> [-> [Ht ->]]]]]]|[[ov [ow [cv [cw [tv [tw [-> [-> [Hv [Hw ->]]]]]]]]]]|[[ov [cv [tv [-> [-> [Hv ->]]]]]]|HD]]];
+      try (cbn in Hx; discriminate); try (split_diff HD; subst; try (cbn in Hx; first [discriminate | rewrite nselect_bad_r in Hx; discriminate | rewrite nselect_bad_l in Hx; discriminate]));
+      cbn [eval_dfun] in *; unfold affT in *.
     + destruct (twhere_inv _ _ _ _ Hv) as [s [Eo [Ec [Hf ->]]]].
-      destruct (nselect_inv _ _ _ _ Hx) as [[? [? [? [E _]]]]|[[ov' [ow' [cv' [cw' [tv' [tw' [E1 [E2 [Hv' [Hw' ->]]]]]]]]]]|[? [? [? [E _]]]]]]; try discriminate.
+      destruct (nselect_inv _ _ _ _ Hx) as [[? [? [? [E _]]]]|[[ov' [ow' [cv' [cw' [tv' [tw' [E1 [E2 [Hv' [Hw' ->]]]]]]]]]]|[[? [? [? [E _]]]]|HD]]]; try discriminate; try (split_diff HD; discriminate).
       injection E1 as <- <-. injection E2 as <- <-. rewrite Hw in Hw'. injection Hw' as <-.
       rewrite (twhere_intro mk _ _ s) in Hv' by (rewrite ?shape_tmap; assumption). injection Hv' as <-. now rewrite tmap_nsel.
     + destruct (twhere_inv _ _ _ _ Hv) as [s [Eo [Ec [Hf ->]]]].
-      destruct (nselect_inv _ _ _ _ Hx) as [[? [? [? [E _]]]]|[[? [? [? [? [? [? [E _]]]]]]]|[ov' [cv' [tv' [E1 [E2 [Hv' ->]]]]]]]]; try discriminate.
+      destruct (nselect_inv _ _ _ _ Hx) as [[? [? [? [E _]]]]|[[? [? [? [? [? [? [E _]]]]]]]|[[ov' [cv' [tv' [E1 [E2 [Hv' ->]]]]]]|HD]]]; try discriminate; try (split_diff HD; discriminate).
       injection E1 as <-. injection E2 as <-.
+      rewrite (twhere_intro mk _ _ s) in Hv' by (rewrite ?shape_tmap; assumption). injection Hv' as <-. now rewrite tmap_nsel.
+    + (* the forked side has weights, the current one none *)
+      destruct (twhere_inv _ _ _ _ Hv) as [s [Eo [Ec [Hf ->]]]].
+      destruct (nselect_SN _ _ _ _ _ Hx) as [tv' [tw' [Hv' [Hw' ->]]]]. rewrite Hw in Hw'. injection Hw' as <-.
+      rewrite (twhere_intro mk _ _ s) in Hv' by (rewrite ?shape_tmap; assumption). injection Hv' as <-. now rewrite tmap_nsel.
+    + (* the current side has weights, the forked one none *)
+      destruct (twhere_inv _ _ _ _ Hv) as [s [Eo [Ec [Hf ->]]]].
+      destruct (nselect_NS _ _ _ _ _ Hx) as [tv' [tw' [Hv' [Hw' ->]]]]. rewrite Hw in Hw'. injection Hw' as <-.
       rewrite (twhere_intro mk _ _ s) in Hv' by (rewrite ?shape_tmap; assumption). injection Hv' as <-. now rewrite tmap_nsel.
   - (* DVal *)
     destruct (d_parents (nth k l dspec0)) as [|q [|q' ps]] eqn:Eps; try discriminate. destruct HS as [p [[<-|[]] Sp]].
     inversion Hmix as [|? ? o os c cs' x0 xs Sq Hq Hrest|? ? os c cs' xs Sq Hrest]; subst; [|congruence]. inversion Hrest; subst. clear Hmix Hrest.
-    cbn in Hq. destruct (nselect_inv _ _ _ _ Hq) as [[to [tc [t [-> [-> [Ht ->]]]]]]|[[ov [ow [cv [cw [tv [tw [-> [-> [Hv [Hw ->]]]]]]]]]]|[ov [cv [tv [-> [-> [Hv ->]]]]]]]];
-      try (cbn in Hx; discriminate); cbn [eval_dfun] in *; unfold affT in *.
+    cbn in Hq. destruct (nselect_inv _ _ _ _ Hq) as [[to [tc [t [-> [-> [Ht ->]]]]]]|[[ov [ow [cv [cw [tv [tw [-> [-> [Hv [Hw ->]]]]]]]]]]|[[ov [cv [tv [-> [-> [Hv ->]]]]]]|HD]]];
+      try (cbn in Hx; discriminate); try (split_diff HD; subst; try (cbn in Hx; first [discriminate | rewrite nselect_bad_r in Hx; discriminate | rewrite nselect_bad_l in Hx; discriminate]));
+      cbn [eval_dfun] in *; unfold affT in *.
     + destruct (twhere_inv _ _ _ _ Hv) as [s [Eo [Ec [Hf ->]]]]. destruct (twhere_inv _ _ _ _ Hw) as [s' [Eo' [Ec' [Hf' ->]]]].
       destruct (oshape_eqb (shape ov) (shape ow)) eqn:E1; [|now rewrite nselect_bad_l in Hx].
       destruct (oshape_eqb (shape cv) (shape cw)) eqn:E2; [|now rewrite nselect_bad_r in Hx].
@@ -478,11 +555,32 @@ Proof.
       end.
     + destruct (twhere_inv _ _ _ _ Hv) as [s [Eo [Ec [Hf ->]]]].
       rewrite (nselect_NP mk _ _ s) in Hx by (rewrite ?shape_tmap; assumption). injection Hx as <-. now rewrite tmap_nsel.
+    + (* the forked side has weights, the current one none: its entries count fully *)
+      destruct (twhere_inv _ _ _ _ Hv) as [s [Eo [Ec [Hf ->]]]]. destruct (twhere_inv _ _ _ _ Hw) as [s' [Eo' [_ [Hf' ->]]]].
+      destruct (oshape_eqb (shape ov) (shape ow)) eqn:E1; [|now rewrite nselect_bad_l in Hx].
+      destruct (oshape_eqb_true _ _ E1) as [s1 [A1 A2]]. shapes.
+      match type of Eo with _ = Some ?z =>
+        rewrite !(nsel_shape _ _ _ _ z) by (rewrite ?shape_ones; assumption); rewrite oshape_eqb_refl;
+        rewrite (nselect_NP mk _ _ z) in Hx by (rewrite ?shape_tmap; try apply shape_tmap2_same; assumption); injection Hx as <-;
+        rewrite (tmap2_nsel _ _ _ _ _ _ _ z) by (rewrite ?shape_ones; assumption);
+        rewrite (wv_ones cv ow z) by assumption; now rewrite tmap_nsel
+      end.
+    + (* the current side has weights, the forked one none *)
+      destruct (twhere_inv _ _ _ _ Hv) as [s [Eo [Ec [Hf ->]]]]. destruct (twhere_inv _ _ _ _ Hw) as [s' [_ [Ec' [Hf' ->]]]].
+      destruct (oshape_eqb (shape cv) (shape cw)) eqn:E1; [|now rewrite nselect_bad_r in Hx].
+      destruct (oshape_eqb_true _ _ E1) as [s1 [A1 A2]]. shapes.
+      match type of Eo with _ = Some ?z =>
+        rewrite !(nsel_shape _ _ _ _ z) by (rewrite ?shape_ones; assumption); rewrite oshape_eqb_refl;
+        rewrite (nselect_NP mk _ _ z) in Hx by (rewrite ?shape_tmap; try apply shape_tmap2_same; assumption); injection Hx as <-;
+        rewrite (tmap2_nsel _ _ _ _ _ _ _ z) by (rewrite ?shape_ones; assumption);
+        rewrite (wv_ones ov cw z) by assumption; now rewrite tmap_nsel
+      end.
   - (* DWgt *)
     destruct (d_parents (nth k l dspec0)) as [|q [|q' ps]] eqn:Eps; try discriminate. destruct HS as [p [[<-|[]] Sp]].
     inversion Hmix as [|? ? o os c cs' x0 xs Sq Hq Hrest|? ? os c cs' xs Sq Hrest]; subst; [|congruence]. inversion Hrest; subst. clear Hmix Hrest.
-    cbn in Hq. destruct (nselect_inv _ _ _ _ Hq) as [[to [tc [t [-> [-> [Ht ->]]]]]]|[[ov [ow [cv [cw [tv [tw [-> [-> [Hv [Hw ->]]]]]]]]]]|[ov [cv [tv [-> [-> [Hv ->]]]]]]]];
-      try (cbn in Hx; discriminate); cbn [eval_dfun] in *; unfold affT in *.
+    cbn in Hq. destruct (nselect_inv _ _ _ _ Hq) as [[to [tc [t [-> [-> [Ht ->]]]]]]|[[ov [ow [cv [cw [tv [tw [-> [-> [Hv [Hw ->]]]]]]]]]]|[[ov [cv [tv [-> [-> [Hv ->]]]]]]|HD]]];
+      try (cbn in Hx; discriminate); try (split_diff HD; subst; try (cbn in Hx; first [discriminate | rewrite nselect_bad_r in Hx; discriminate | rewrite nselect_bad_l in Hx; discriminate]));
+      cbn [eval_dfun] in *; unfold affT in *.
     destruct (twhere_inv _ _ _ _ Hv) as [s [Eo [Ec [Hf ->]]]]. destruct (twhere_inv _ _ _ _ Hw) as [s' [Eo' [Ec' [Hf' ->]]]].
     destruct (oshape_eqb (shape ov) (shape ow)) eqn:E1; [|now rewrite nselect_bad_l in Hx].
     destruct (oshape_eqb (shape cv) (shape cw)) eqn:E2; [|now rewrite nselect_bad_r in Hx].
@@ -589,26 +687,38 @@ Proof.
   vm_compute. repeat split.
 Qed.
 
-(** a value weighted on ONE side only, with what torch does ([nsem_torch]: the rows of the side without weight take the OTHER side's
-    weight): x = WeightedTensor([5, 7]) (no weight); y = x.weighted_value; read y; x = WeightedTensor([1, 2], weight=[0, 1]); read y;
-    individual 0 rejected.  The history meets the precondition (the call is accepted), x is [5, 2] with weights [0, 1] — row 0 has the
-    weight of the REJECTED proposal — and the cached y reads [5, 2] where the from-scratch evaluation gives [0, 2] *)
+(** a value weighted on ONE side only: x = WeightedTensor([5, 7]) (no weight); y = x.weighted_value; read y;
+    x = WeightedTensor([1, 2], weight=[0, 1]); read y; individual 0 rejected.
+    BEFORE the repair of [_select] ([nsem_torch_old]: the rows of the side without weight take the OTHER side's weight) the history meets the
+    precondition (the call is accepted), x is [5, 2] with weights [0, 1] — row 0 has the weight of the REJECTED proposal — and the cached y
+    reads [5, 2] where the from-scratch evaluation gives [0, 2].
+    With the code as it is ([nsem]: a side without weights is fully weighted) x is [5, 2] with weights [1, 1] and every read is fresh. *)
 Definition one_sided_nodes : list dspec :=
   [ mkD false true None true [] [] [1]%nat DLog2; mkD true false None true [0]%nat [0]%nat [] (DVal 0 1) ].
 Definition one_sided_ops : list nop :=
   [ SetMode 0 (Some REF); Set_ 0 0 (Some (NW (vec [5; 7]) None)); Get 0 1;
     Set_ 0 0 (Some (NW (vec [1; 2]) (Some (vec [0; 1])))); Get 0 1; RevertMask 0 (true, [true; false]) ].
 
-Theorem one_sided_weight_refuted :
+Theorem one_sided_weight_old_refuted :
   gwf_b (mk_ngraph one_sided_nodes) = true /\
-  MaskDisciplined (mk_ngraph one_sided_nodes) nsem_torch (init_store (mk_ngraph one_sided_nodes)) one_sided_ops /\
-  nread_of (mk_ngraph one_sided_nodes) nsem_torch true one_sided_ops 0 0 = Ok (NW (vec [5; 2]) (Some (vec [0; 1]))) /\
-  nread_of (mk_ngraph one_sided_nodes) nsem_torch true one_sided_ops 0 1 = Ok (NP (vec [5; 2])) /\
-  nfresh_of (mk_ngraph one_sided_nodes) nsem_torch true one_sided_ops 0 1 = Some (Some (NP (vec [0; 2]))).
+  MaskDisciplined (mk_ngraph one_sided_nodes) nsem_torch_old (init_store (mk_ngraph one_sided_nodes)) one_sided_ops /\
+  nread_of (mk_ngraph one_sided_nodes) nsem_torch_old true one_sided_ops 0 0 = Ok (NW (vec [5; 2]) (Some (vec [0; 1]))) /\
+  nread_of (mk_ngraph one_sided_nodes) nsem_torch_old true one_sided_ops 0 1 = Ok (NP (vec [5; 2])) /\
+  nfresh_of (mk_ngraph one_sided_nodes) nsem_torch_old true one_sided_ops 0 1 = Some (Some (NP (vec [0; 2]))).
 Proof.
   split; [vm_compute; reflexivity|]. split; [apply gmask_disciplined_b_sound; vm_compute; reflexivity|]. vm_compute. repeat split.
 Qed.
 
+Example one_sided_weight_now :
+  entrywise_axis_b one_sided_nodes = true /\
+  MaskDisciplined (mk_ngraph one_sided_nodes) nsem (init_store (mk_ngraph one_sided_nodes)) one_sided_ops /\
+  nread_of (mk_ngraph one_sided_nodes) nsem true one_sided_ops 0 0 = Ok (NW (vec [5; 2]) (Some (vec [1; 1]))) /\
+  nread_of (mk_ngraph one_sided_nodes) nsem true one_sided_ops 0 1 = Ok (NP (vec [5; 2])) /\
+  nfresh_of (mk_ngraph one_sided_nodes) nsem true one_sided_ops 0 1 = Some (Some (NP (vec [5; 2]))) /\
+  nread_of (mk_ngraph one_sided_nodes) nsem_torch true one_sided_ops 0 0 = Ok (NW (vec [5; 2]) (Some (vec [1; 1]))).
+Proof.
+  split; [vm_compute; reflexivity|]. split; [apply gmask_disciplined_b_sound; vm_compute; reflexivity|]. vm_compute. repeat split.
+Qed.
 Local Close Scope Z_scope.
 
 (** * the headline: after a forked assignment, reads allowed by the contract and [revert(mask)] (right-broadcasting), row [j] of EVERY
@@ -616,10 +726,22 @@ Local Close Scope Z_scope.
       holds and the current row elsewhere (value and weight from the same side) *)
 Lemma nselect_rows_selected m old cur r : nselect (true, m) old cur = Some r -> rows_selected m old cur r.
 Proof.
-  intros H. destruct (nselect_inv _ _ _ _ H) as [[o [c [t [-> [-> [Ht ->]]]]]]|[[ov [ow [cv [cw [tv [tw [-> [-> [Hv [Hw ->]]]]]]]]]]|[ov [cv [tv [-> [-> [Hv ->]]]]]]]]; cbn.
-  - exact (twhere_rows _ _ _ _ Ht).
+  intros H. unfold rows_selected.
+  destruct (nselect_inv _ _ _ _ H) as [[o [c [t [-> [-> [Ht ->]]]]]]|[[ov [ow [cv [cw [tv [tw [-> [-> [Hv [Hw ->]]]]]]]]]]|[[ov [cv [tv [-> [-> [Hv ->]]]]]]|HD]]]; cbn.
+  - split; [exact (twhere_rows _ _ _ _ Ht)|eauto].
   - split; [exact (twhere_rows _ _ _ _ Hv)|exact (twhere_rows _ _ _ _ Hw)].
-  - exact (twhere_rows _ _ _ _ Hv).
+  - split; [exact (twhere_rows _ _ _ _ Hv)|exact I].
+  - destruct HD as [[ov [ow [cv [tv [tw [-> [-> [Hv [Hw ->]]]]]]]]]|[[ov [cv [cw [tv [tw [-> [-> [Hv [Hw ->]]]]]]]]]|HM]]; cbn.
+    + split; [exact (twhere_rows _ _ _ _ Hv)|exact (twhere_rows _ _ _ _ Hw)].
+    + split; [exact (twhere_rows _ _ _ _ Hv)|exact (twhere_rows _ _ _ _ Hw)].
+    + (* a plain tensor against a WeightedTensor *)
+      unfold nselect, nselect_with in H.
+      destruct HM as [[o [v [w [-> ->]]]]|[v [w [c [-> ->]]]]]; destruct w as [w|]; cbn -[twhere ones_like] in H |- *;
+        repeat (match type of H with
+                | match twhere ?a ?b ?c with _ => _ end = _ =>
+                    let E := fresh "E" in destruct (twhere a b c) eqn:E; [|discriminate]; cbn -[twhere ones_like] in H
+                end);
+        injection H as <-; cbn; split; first [exact I | eapply twhere_rows; eassumption].
 Qed.
 
 Theorem partial_revert_nd_rows (l : list dspec) :
